@@ -1,6 +1,8 @@
 HOOK_COMMITS = []
 NOTES = "Model checking = bounded exhaustive exploration of the real code against reference models; see DESIGN.md. Exit 0 held / 1 violation / >=2 machinery failure."
 ENGINES = [
+    {"name": "vc_config", "path": "harness/src/engines/vc_config.rs", "serves_properties": ["C16", "C17"],
+     "kind_free_text": "stateless exhaustive enumeration of layer assignments / configurations through real merge, render and parse code"},
     {"name": "vc_expect", "path": "harness/src/engines/vc_expect.rs", "serves_properties": ["C08"],
      "kind_free_text": "stateless exhaustive enumeration of suffix-grammar words vs reference grammar + round trip"},
     {"name": "vc_escape", "path": "harness/src/engines/vc_escape.rs", "serves_properties": ["C11"],
@@ -40,5 +42,15 @@ CHECKS.append(
      "technique": "exhaustive enumeration of all bytes, all byte pairs, all Unicode scalars and all short strings over a focused alphabet through both escapers, with real parse-back",
      "text": "For every enumerated line under both escapers (with and without final LF) the written text must be printable (ASCII 0x20-0x7E / no Unicode category C per the regex crate's tables) and, parsed back by the real ExpectationMaker as the kind it is marked with, must decode to exactly the original bytes.",
      "note": "Unicode classification from the regex crate's tables; strings bounded to length 4/5 over 15 symbols"})
+CHECKS.append(
+    {"id": "C16", "engine": "vc_config", "category": "exploration", "design_ref": "DESIGN.md §2 C16",
+     "technique": "exhaustive enumeration of layer assignments ({unset,v1,v2} per key per layer, singly and for every key pair) through the real merge functions and the real Markdown parser, oracle 'first layer that sets it'",
+     "text": "All 3^4 assignments per key and 3^8 per key pair (9 keys incl. two environment variables) are merged with the real with_defaults_from/with_overrides_from in the composition used by the parser and `scrut test`, all 3^10 DocumentConfig assignments likewise, and the same layers written as front-matter + inline config are read back through MarkdownParser on Markdown and Cram bases; result must equal 'highest-precedence layer that sets the key', layering must be associative with the empty layer as identity, prepend/append must accumulate in order.",
+     "note": "value alphabet of two values per key; command-line layer through the binary is covered by vc_cli when built"})
+CHECKS.append(
+    {"id": "C17", "engine": "vc_config", "category": "exploration", "design_ref": "DESIGN.md §2 C17",
+     "technique": "exhaustive enumeration of configurations (all key subsets; each key's full value alphabet; value pairs) through render -> real parser round trips",
+     "text": "Every enumerated TestCaseConfig/DocumentConfig is rendered by to_yaml_one_liner (placed after the fence language as the generator does) and by serde_yaml (also as front-matter) and read back by the real MarkdownParser / serde; the result must equal the original (after layering on the format default).",
+     "note": "value alphabets as listed in the evidence bound; environment variable names are plain identifiers"})
 claimed = {c["id"] for c in CHECKS}
 NOT_APPLICABLE = [{"property_id": p, "reason": "check not built yet (work in progress; planned in DESIGN.md)"} for p in ALL if p not in claimed]
